@@ -45,4 +45,8 @@ def Ord.fill (o : Ord) (price : R) (q : Int) (fee : R) : Ord :=
                      filled := nq }
   if o1.qty - o1.filled = 0 then { o1 with status := .filled } else o1
 
+/-- `LimitOrder.round_price` (config `base.round_price`), on prices written in ten-thousandths as the code writes them (`"{:.4f}"`):
+the limit goes DOWN to the tick grid (`to_integral` under ROUND_FLOOR); tick 0 ("Invalid tick size", a warning) leaves it alone. -/
+def roundPrice (l t : Nat) : Nat := if t = 0 then l else (l / t) * t
+
 end RQ.Q
